@@ -232,7 +232,7 @@ impl Prop for C02 {
         "model_checking"
     }
     fn rule(&self, _t: Tier) -> String {
-        "for each of the 60+ text-parsing entry points: (1) every string over its native character-class alphabet up to the length bound (full input trie; states = strings); (2) every sequence of its line templates / tokens up to the sequence bound; (3) pumped inputs w^k for every w up to length 2 (thorough 3) with k in {8, 64} (thorough 512), unbalanced nests and 20 kB (thorough 100 kB) single lines; (4) for typed documents, the all-valid document built from the type's field table with <= 1 (thorough 2) fields absent or replaced by one of 7 garbage values; each call runs under catch_unwind with the parser loop budget armed (quadratic envelope), the allocation cap and the stall watchdog, and pumped inputs are also timed; non-trivial = distinct (entry point, non-empty string) of tiers 1-2".into()
+        "for each of the 60+ text-parsing entry points: (1) every string over its native character-class alphabet up to the length bound (full input trie; states = strings); (2) every sequence of its line templates / tokens up to the sequence bound; (3) pumped inputs w^k for every w up to length 2 (thorough 3) with k in {8, 64} (thorough 512), unbalanced nests and 20 kB (thorough 100 kB) single lines; (4) for the VCS-location codecs every sequence of 4-6 (thorough 7) tokens of the longest value grammar (url, opening bracket, subpath, closing bracket, -b, branch, blank); (5) for typed documents, the all-valid document built from the type's field table with <= 1 (thorough 2) fields absent or replaced by one of 7 garbage values; each call runs under catch_unwind with the parser loop budget armed (quadratic envelope), the allocation cap and the stall watchdog, and pumped inputs are also timed; non-trivial = distinct (entry point, non-empty string) of tiers 1-2".into()
     }
     fn bounds(&self, t: Tier) -> Value {
         let eps = entry_points();
@@ -247,13 +247,13 @@ impl Prop for C02 {
         ]
     }
     fn n_shards(&self, _t: Tier) -> usize {
-        entry_points().len() * 4
+        entry_points().len() * 5
     }
     fn explore(&self, t: Tier, shard: usize, f: &mut dyn FnMut(&C02Case) -> Verdict) {
         let eps = entry_points();
-        let ep = &eps[shard / 4];
+        let ep = &eps[shard / 5];
         let mut case = C02Case { ep: ep.name.to_string(), s: String::new(), fresh: false };
-        match shard % 4 {
+        match shard % 5 {
             0 => {
                 let sp = char_space(ep.group, t);
                 for sh in 0..sp.n_shards() {
@@ -278,6 +278,23 @@ impl Prop for C02 {
                             f(&case);
                         });
                     }
+                }
+            }
+            4 => {
+                // grammar-position tier: few multi-character tokens, long enough sequences to fill every position
+                // of the longest value grammar (VCS location: url, subpath, branch in either order; records of 3-5 items)
+                if ep.group == Group::Codec && ep.name.starts_with("vcs::") {
+                    let toks = ["u", "https://host/r.git", " [", "]", " -b ", "m", "src/packaging/debian"];
+                    let sp = SeqSpace::new(&toks, t.pick(6, 7), 0);
+                    sp.explore(0, &mut |s, idx| {
+                        if idx.len() < 4 {
+                            return;
+                        }
+                        case.s.clear();
+                        case.s.push_str(s);
+                        case.fresh = false;
+                        f(&case);
+                    });
                 }
             }
             2 => {
